@@ -53,6 +53,8 @@ pub enum TOp {
     InsAt(u8, Sz),
     /// seed: insert `count` keys numbered 100, 200, 300, ... (ascending, or descending if the flag is set)
     SeedRun(u16, Sz, bool),
+    /// remove the `count` smallest present keys of a region through `Btree::remove_tuple` (the path VACUUM uses)
+    RemRunT(u8, u8),
     /// Text trees only: three keys of exactly `len` bytes that share their first len-1 bytes ('k' repeated) and end
     /// in 'm', 'a', 'z' (inserted in that order; the last one with a 1.5-page payload): insert, lookup, ordered scan,
     /// duplicate rejection, absent neighbours, removal. Self-contained (does not use the numbered-key model).
@@ -71,6 +73,7 @@ impl TOp {
             TOp::Dealloc2 => "tree2.dealloc+new".into(),
             TOp::InsRun(r, c, s) => format!("insert-run(region {r}, {c} keys, {s:?})"),
             TOp::RemRun(r, c) => format!("remove-run(region {r}, {c} keys)"),
+            TOp::RemRunT(r, c) => format!("remove_tuple-run(region {r}, {c} keys)"),
             TOp::Grow2(c, s) => format!("tree2.insert-run({c} keys, {s:?})"),
             TOp::InsAt(g, s) => format!("insert-above-seed-key({g},{s:?})"),
             TOp::KeyLen(l) => format!("text-keys-of-{l}-bytes"),
@@ -223,7 +226,17 @@ struct TreeState {
     run_off: [u32; 3],
 }
 
+/// C11 with the listed separator-alias finding: an interior separator is a byte copy of a leaf cell including its
+/// overflow pointer. With the flag set the audit treats that copy as what it is - a NON-owning alias: the chain is
+/// owned by the leaf cell alone (exact quirk). Everything else is still demanded: every page has exactly one owner
+/// among tree nodes, chains of LEAF cells and the free list. (Thread-local: workers run one case at a time.)
+thread_local! {
+    static ALIAS_QUIRK: std::cell::Cell<bool> = const { std::cell::Cell::new(false) };
+    static ALIAS_PAGES: std::cell::Cell<usize> = const { std::cell::Cell::new(0) };
+}
+
 pub struct Audit {
+    pub alias_pages: usize,
     pub structure: Vec<String>,
     pub ownership: Vec<String>,
     pub digest: String,
@@ -288,7 +301,11 @@ fn walk(
                 return;
             }
         }
-        if c.is_overflow {
+        if c.is_overflow && !p.is_leaf && ALIAS_QUIRK.with(|q| q.get()) {
+            // non-owning alias of a leaf cell's chain (or a dangling pointer to a chain that was released with its leaf cell)
+            let n = guard(|| env.overflow_chain(c)).map(|ch| ch.len()).unwrap_or(1);
+            ALIAS_PAGES.with(|a| a.set(a.get() + n.max(1)));
+        } else if c.is_overflow {
             match guard(|| env.overflow_chain(c)) {
                 Ok(chain) => {
                     for pg in chain {
@@ -343,6 +360,7 @@ fn walk(
 }
 
 pub fn audit(env: &TreeEnv, trees: &[&TreeHandle]) -> Audit {
+    ALIAS_PAGES.with(|a| a.set(0));
     let mut owners: BTreeMap<u64, Vec<String>> = BTreeMap::new();
     let mut structure = vec![];
     let mut ownership = vec![];
@@ -404,7 +422,7 @@ pub fn audit(env: &TreeEnv, trees: &[&TreeHandle]) -> Audit {
         }
     }
     digest.push_str(&format!("free{:?}tp{}", free, hdr.total_pages));
-    Audit { structure, ownership, digest, pages_tree: n_tree, pages_overflow: n_ovf, pages_free: free.len(), height, total_pages: hdr.total_pages, free }
+    Audit { alias_pages: ALIAS_PAGES.with(|a| a.get()), structure, ownership, digest, pages_tree: n_tree, pages_overflow: n_ovf, pages_free: free.len(), height, total_pages: hdr.total_pages, free }
 }
 
 fn check_map(env: &TreeEnv, kind: Kind, st: &TreeState, probe_keys: &[u32]) -> Vec<String> {
@@ -453,6 +471,7 @@ fn check_map(env: &TreeEnv, kind: Kind, st: &TreeState, probe_keys: &[u32]) -> V
 
 pub fn run_once(p: &BtParams, hist: &[usize]) -> StepReport {
     let mut rep = StepReport::default();
+    ALIAS_QUIRK.with(|q| q.set(p.mode == "C11" && p.triggers.iter().any(|t| t == "KT-separator-aliases-overflow-chain")));
     let dir = fresh_dir("bt");
     let env = match TreeEnv::create(&dir.join("t.axm"), p.cfg.to_db()) {
         Ok(e) => e,
@@ -493,6 +512,7 @@ pub fn run_once(p: &BtParams, hist: &[usize]) -> StepReport {
     let mut c10: Option<String> = None;
     let mut c11: Option<String> = None;
     let mut alias_seen = false;
+    let mut dangling_alias: Option<String> = None;
     let mut last_audit: Option<Audit> = None;
     for (i, op) in ops.iter().enumerate() {
         let stamp = i as u32 + 1;
@@ -638,7 +658,8 @@ pub fn run_once(p: &BtParams, hist: &[usize]) -> StepReport {
                     Err(e) => Err(format!("insert of key #{n} failed: {e}")),
                 }
             }
-            TOp::RemRun(region, count) => {
+            TOp::RemRun(region, count) | TOp::RemRunT(region, count) => {
+                let by_tuple = matches!(op, TOp::RemRunT(..));
                 let (lo, hi) = match region {
                     0 => (100, 100 + 100 * (t1.seed_n / 3).max(1)),
                     1 => (100 + 100 * (t1.seed_n / 3).max(1), 100 + 100 * (2 * t1.seed_n / 3).max(2)),
@@ -647,7 +668,7 @@ pub fn run_once(p: &BtParams, hist: &[usize]) -> StepReport {
                 let victims: Vec<u32> = t1.model.range(lo..hi).map(|(k, _)| *k).take(*count as usize).collect();
                 let mut r = Ok(());
                 for n in victims {
-                    match guard(|| env.remove(&t1.handle, &key_of(p.kind, n))) {
+                    match guard(|| if by_tuple { env.remove_tuple(&t1.handle, &key_of(p.kind, n)) } else { env.remove(&t1.handle, &key_of(p.kind, n)) }) {
                         Ok(()) => {
                             t1.model.remove(&n);
                         }
@@ -741,12 +762,20 @@ pub fn run_once(p: &BtParams, hist: &[usize]) -> StepReport {
                 c10 = Some(format!("after {}: {s}", op.show()));
             }
         }
-        if a.ownership.iter().any(|o| o.contains("interior separator")) {
+        if a.ownership.iter().any(|o| o.contains("interior separator")) || a.alias_pages > 0 {
             alias_seen = true;
         }
         if c11.is_none() {
             if let Some(o) = a.ownership.first() {
-                c11 = Some(format!("after {}: {o}", op.show()));
+                // the page walk itself broke on a key that can no longer be read through a separator whose aliased chain
+                // was released with its leaf cell and reused (the downstream effect the property text itself describes
+                // for the listed alias finding): the ownership census of such a walk is meaningless
+                let walk_broken = a.structure.iter().any(|s| s.contains("cannot be decoded") || s.contains("chain unreadable"));
+                if walk_broken && alias_seen && ALIAS_QUIRK.with(|q| q.get()) {
+                    dangling_alias = Some(format!("after {}: {} (and {o})", op.show(), a.structure.first().cloned().unwrap_or_default()));
+                } else {
+                    c11 = Some(format!("after {}: {o}", op.show()));
+                }
             }
         }
         last_audit = Some(a);
@@ -754,7 +783,7 @@ pub fn run_once(p: &BtParams, hist: &[usize]) -> StepReport {
         if p.mode != "C11" {
             c11 = None;
         }
-        if c10.is_some() || c11.is_some() {
+        if c10.is_some() || c11.is_some() || dangling_alias.is_some() {
             break;
         }
     }
@@ -785,6 +814,15 @@ pub fn run_once(p: &BtParams, hist: &[usize]) -> StepReport {
         rep.stop = true;
         return rep;
     }
+    if p.mode == "C11" {
+        if let Some(d) = dangling_alias {
+            rep.status = "known".into();
+            rep.findings = vec![alias_id.to_string()];
+            rep.detail = format!("{d}\n{}", log.join("\n"));
+            rep.stop = true;
+            return rep;
+        }
+    }
     let deciding = if p.mode == "C11" { c11.clone() } else { c10.clone() };
     // C10 does not depend on who owns which page; C11's audit is meaningless on a tree that is functionally broken
     let other = if p.mode == "C11" { c10 } else { None };
@@ -803,6 +841,12 @@ pub fn run_once(p: &BtParams, hist: &[usize]) -> StepReport {
         rep.status = "tainted".into();
         rep.findings = vec![format!("other-oracle: {}", other.unwrap())];
         rep.stop = true;
+    } else if p.mode == "C11" && alias_seen && ALIAS_QUIRK.with(|q| q.get()) {
+        // the listed finding re-observed in its exact shape (separators aliasing chains); the history goes on
+        rep.status = "known".into();
+        rep.findings = vec!["KT-separator-aliases-overflow-chain".into()];
+        rep.detail = format!("interior separators alias overflow chains of leaf cells (non-owning copies)\n{}", log.join("\n"));
+        rep.stop = false;
     } else {
         rep.status = "ok".into();
     }
